@@ -7,15 +7,18 @@
  * the wrappers inject the scheduled outcome on the designated descriptor / call and pass everything else through.
  *
  * Transfer scripts (one step each):
- *     xfer <len> <mode> <wsched> <rsched> = {rc=..,rcalls=..,retries=..,wc=..,wcalls=..} {data=T,len=<len>,open=0,send=T}
+ *     xfer <len> <mode> <wsched> <rsched> <plen> [cyc] = {rc=..,rcalls=..,retries=..,wc=..,wcalls=..} {data=T,len=<len>,name=<n>,open=0,send=T}
+ *   plen = length of the socket path (0 = short default path); name = length of the name the listener is bound to (0 for the
+ *   default path), -1 if it is not the URL's path cut to what sun_path holds
  *   sched = [[ok,n],[sh,n],[ei,0],[ea,0],[end,0]...]: outcome of the first calls on the client (write) / accepted (read)
- *   descriptor; with a fifth argument "cyc" the schedules are patterns repeated over the whole transfer ([sh,n] = at most n);  mode eof: the client is closed before the peer reads;  nbio: the peer reads non-blocking.
+ *   descriptor; with a sixth argument "cyc" the schedules are patterns repeated over the whole transfer ([sh,n] = at most n);  mode eof: the client is closed before the peer reads;  nbio: the peer reads non-blocking.
  * Lifecycle scripts: new/open/accept/send/recv/close/dup/del steps; state token {g=<ghost>,o=<observable>} where the ghost
  *   part (the specification's kernel-side bookkeeping, not observable) is copied from the expectation and the
  *   observable part {ex=[..],fd=[..],nopen=n,orph=n,sk=[..]} is measured (object fields, fstat inode identity,
  *   /proc/self/fd census against the census taken before the script).
  */
 #include "common.h"
+#include <stddef.h>
 #include <netdb.h>
 #include <dirent.h>
 #include <fcntl.h>
@@ -106,7 +109,43 @@ static void census(unsigned char *set) {
 /* ---- objects --------------------------------------------------------------------------------------------------- */
 static spif_socket_t S[4];                      /* lis cli acc cp */
 static const char *slotname[4] = { "lis", "cli", "acc", "cp" };
-static char sockpath[200], sockurl[220];
+static char sockpath[400], sockurl[420];      /* sockpath = the name the kernel is expected to see (the URL's path cut to sun_path) */
+static char defpath[200], cwdbuf[128];
+static unsigned dirt = 1;
+
+/* The environment as input: socket paths of a given length (crossing what sun_path holds) ... */
+static void set_path(long plen) {
+    if (plen <= 0) {
+        snprintf(sockpath, sizeof(sockpath), "%s", defpath);
+        snprintf(sockurl, sizeof(sockurl), "unix:%s", defpath);
+    } else {
+        char full[400]; size_t n;
+        snprintf(full, sizeof(full), "%s/p%ld_", cwdbuf, (long) getpid());
+        n = strlen(full);
+        while (n < (size_t) plen && n < sizeof(full) - 1) { full[n] = (char) ('a' + n % 26); n++; }
+        full[n] = 0;
+        snprintf(sockurl, sizeof(sockurl), "unix:%s", full);
+        snprintf(sockpath, sizeof(sockpath), "%.*s", (int) (sizeof(((struct sockaddr_un *) 0)->sun_path) - 1), full);
+    }
+}
+/* ... with a dirty heap behind them: blocks of about sizeof(struct sockaddr_un) are scribbled with a byte that changes from
+ * call to call and released, so that whatever the library allocates next for an address does not start out clean or equal. */
+static void dirty_heap(void) {
+    void *b[24]; int i; unsigned char fill = (unsigned char) (1 + (dirt++ * 37) % 255);
+    for (i = 0; i < 24; i++) { size_t sz = sizeof(struct sockaddr_un) - 8 + (size_t) (i % 17); b[i] = malloc(sz); if (b[i]) memset(b[i], fill, sz); }
+    for (i = 0; i < 24; i++) free(b[i]);
+}
+/* the name the listener is really bound to: its length if it is the expected name, else -1 */
+static long bound_name(spif_socket_t l) {
+    union { struct sockaddr_un un; char room[sizeof(struct sockaddr_un) + 32]; } sa; socklen_t sl = sizeof(sa); size_t n;
+    memset(&sa, 0, sizeof(sa));
+    if (SPIF_SOCKET_ISNULL(l) || l->fd < 0 || getsockname(l->fd, (struct sockaddr *) &sa, &sl)) return -1;
+    if (sl > sizeof(sa)) sl = sizeof(sa);
+    n = sl > offsetof(struct sockaddr_un, sun_path) ? sl - offsetof(struct sockaddr_un, sun_path) : 0;
+    while (n && sa.room[offsetof(struct sockaddr_un, sun_path) + n - 1] == 0) n--;
+    if (n != strlen(sockpath) || memcmp(sa.room + offsetof(struct sockaddr_un, sun_path), sockpath, n)) return -1;
+    return (long) n;
+}
 static char invmsg[512];
 static long msgno;
 static int slot_of(const char *t) { int i; for (i = 0; i < 4; i++) if (!strcmp(t, slotname[i])) return i; return -1; }
@@ -126,6 +165,7 @@ static void vh_begin(void) {
     int i;
     for (i = 0; i < 4; i++) S[i] = (spif_socket_t) NULL;
     clear_inj(); msgno = 0;
+    set_path(0);
     unlink(sockpath);
     census(base_fd);
 }
@@ -160,10 +200,15 @@ static const char *do_xfer(const vh_step_t *st, vh_sb *ret, vh_sb *state) {
     unsigned char *pay; spif_str_t data, got; spif_bool_t sr; int same = 0; long glen = -1;
     long wc, rc, wcl, rcl, sl; int nopen = 0;
 
+    long plen = st->nargs > 4 ? vh_int(st->args[4]) : 0, name;
+    set_path(plen);
     unlink(sockpath);
     S[0] = mk_socket(1); S[1] = mk_socket(0);
+    dirty_heap();
     if (!spif_socket_open(S[0])) return "xfer:listener_open_failed";
-    if (!spif_socket_open(S[1])) return "xfer:client_open_failed";
+    name = bound_name(S[0]);
+    dirty_heap();
+    if (!spif_socket_open(S[1])) return name < 0 ? "xfer:client_open_failed(listener_bound_to_a_wrong_name)" : "xfer:client_open_failed";
     if (vh_cur_sid & 1) { inj_accept = 1; inj_accept_errno = EAGAIN; }     /* every other transfer: accept() says EAGAIN once */
     S[2] = spif_socket_accept(S[0]);
     inj_accept = 0;
@@ -176,7 +221,7 @@ static const char *do_xfer(const vh_step_t *st, vh_sb *ret, vh_sb *state) {
 
     wlen = parse_sched(st->args[2], wsched); rlen_ = parse_sched(st->args[3], rsched);
     wpos = rpos = 0; wcalls = rcalls = nsleep = 0; spin_detected = 0;
-    cyclic = st->nargs > 4 && !strcmp(st->args[4], "cyc");
+    cyclic = st->nargs > 5 && !strcmp(st->args[5], "cyc");
     sched_wfd = S[1]->fd;
     errno = EAGAIN;                           /* adversarial prelude: a stale errno must not matter */
     sr = spif_socket_send(S[1], data);
@@ -204,7 +249,7 @@ static const char *do_xfer(const vh_step_t *st, vh_sb *ret, vh_sb *state) {
     for (i = 0; i < MAXFD; i++) if (cur_fd[i] && !base_fd[i]) nopen++;
     if (spin_detected) return "recv:read_loop_did_not_end";
     /* state = what the property is about (bytes intact, send's verdict, no descriptor left); ret = calls consumed */
-    sb_printf(state, "{data=%c,len=%ld,open=%d,send=%c}", same ? 'T' : 'F', glen, nopen, sr ? 'T' : 'F');
+    sb_printf(state, "{data=%c,len=%ld,name=%ld,open=%d,send=%c}", same ? 'T' : 'F', glen, plen > 0 ? name : (name < 0 ? -1 : 0), nopen, sr ? 'T' : 'F');
     sb_printf(ret, "{rc=%ld,rcalls=%ld,retries=%ld,wc=%ld,wcalls=%ld}", rc, rcl, sl, wc, wcl);
     return NULL;
 }
@@ -378,9 +423,10 @@ int main(int argc, char **argv) {
     char cwd[128];
     if (argc < 2) { fprintf(stderr, "usage: %s <scripts> [first]\n", argv[0]); return 2; }
     if (!getcwd(cwd, sizeof(cwd))) { perror("getcwd"); return 2; }
-    snprintf(sockpath, sizeof(sockpath), "%s/sk%ld", cwd, (long) getpid());
-    if (strlen(sockpath) > 100) { fprintf(stderr, "socket path too long: %s\n", sockpath); return 2; }
-    snprintf(sockurl, sizeof(sockurl), "unix:%s", sockpath);
+    snprintf(cwdbuf, sizeof(cwdbuf), "%s", cwd);
+    snprintf(defpath, sizeof(defpath), "%s/sk%ld", cwd, (long) getpid());
+    if (strlen(defpath) > 58) { fprintf(stderr, "socket path too long: %s\n", defpath); return 2; }
+    set_path(0);
     signal(SIGPIPE, SIG_IGN);
     if (getenv("VH_HIFD") && hifd_prelude(atoi(getenv("VH_HIFD"))) < 0) { fprintf(stderr, "HIFD-UNAVAILABLE\n"); return 7; }
     libast_set_program_name("sock_replay");
